@@ -82,10 +82,14 @@ impl<T: RefCnt> HybridProtection<T> {
         // First, we claim a debt slot and store the address of the atomic pointer there, so the
         // writer can optionally help us out with loading and protecting something.
         let gen = node.new_helping(storage as *const _ as usize);
-        // We already synchronized the start of the sequence by SeqCst in the new_helping vs swap on
-        // the pointer. We just need to make sure to bring the pointee in (this can be newer than
-        // what we got in the Debt)
-        let candidate = storage.load(Acquire);
+        // SeqCst, for the same reason as the confirming load in attempt: this load must be a
+        // part of the total order together with the swap in new_helping and the writer's swap on
+        // the pointer. If the writer doesn't see our generation, we must see its new pointer. An
+        // Acquire load is not ordered by the SeqCst operations around it and is allowed to return
+        // the previous, possibly already released pointer.
+        //
+        // It also brings the pointee in (this can be newer than what we got in the Debt).
+        let candidate = storage.load(SeqCst);
 
         // Try to replace the debt with our candidate. If it works, we get the debt slot to use. If
         // not, we get a replacement value, already protected and a debt to take care of.
